@@ -223,6 +223,32 @@ def run_config(chk, ctx, name):
                 producers.add(f.path)
     chk.ob("E4.single-signature-constructor", name, len(producers) == 1,
            "Signature values are built in %s (expected exactly one constructor function)" % sorted(producers))
+    # E6: the seed input is its first n bytes (that is what the key blob stores and what `Seed::as_slice` hands out).  The raw
+    # container behind it is wider for the short hashes; reading it anywhere but in the seed type's own methods makes keygen /
+    # signing depend on bytes that are not part of (hash, parameters, seed) and that a reloaded key does not have (c09-m7)
+    def _walk(o, cb):
+        if isinstance(o, dict):
+            if isinstance(o.get("proj"), list):
+                cb(o)
+            for v in o.values():
+                _walk(v, cb)
+        elif isinstance(o, list):
+            for v in o:
+                _walk(v, cb)
+    inside, outside = set(), set()
+    for p, f in F.fns.items():
+        def cb(pl, p=p):
+            for pr in pl["proj"]:
+                if pr.get("k") == "field" and (pr.get("adt") or "").endswith("::Seed"):
+                    own = core.strip_generics(p).startswith(pr["adt"] + "::") or ("<" + pr["adt"]) in p.replace(" ", "")
+                    (inside if own else outside).add((p, pr.get("name")))
+        _walk(f.blocks, cb)
+    chk.count("raw_seed_container_accessors", len(inside))
+    chk.ob("E6.raw-seed-container-accessors-found", name, len(inside) >= 2, "expected the seed type's own accessors to touch its raw container (found %d): anchor lost" % len(inside))
+    for p, fld in sorted(outside):
+        chk.ob("E6.seed-read-only-through-its-n-byte-accessors", "%s|%s[%s]" % (core.strip_generics(p), fld, name), False,
+               "%s reads the seed's raw container field `%s` directly: for hashes shorter than the container the bytes beyond n are not part of the "
+               "seed input (not stored in the key blob), so key generation / signing would depend on more than (hash, parameters, seed)" % (p, fld), where=F.fns[p].loc())
     return F
 
 
